@@ -13,8 +13,14 @@ import (
 
 type ruleFn func(c *Ctx)
 
+var controlsOverride string
+
 var rules = map[string]ruleFn{
+	"C01": ruleC01,
+	"C02": ruleC02,
 	"C03": ruleC03,
+	"C04": ruleC04,
+	"C10": ruleC10,
 	"C05": ruleC05,
 	"C06": ruleC06,
 }
@@ -63,6 +69,9 @@ func runChecks(repo, prop, tier, out, explain string, verbose bool) (code int) {
 	}
 	findings := loadFindings(out)
 	controls := filepath.Join(out, "controls")
+	if controlsOverride != "" {
+		controls = controlsOverride
+	}
 	cfgs := configsFor(tier, repo, controls)
 	ctxs := map[string][]*Ctx{}
 	starts := map[string]time.Time{}
